@@ -1,6 +1,6 @@
 (* C17 composed with C03: signed values through any instantaneous code *)
 From Coq Require Import List NArith ZArith.
-From DSI Require Import Base Prog Codes BitFacts CodesProofs Run CodesSummary CodesTheorems Small SignedCodes.
+From DSI Require Import Base Prog Codes BitFacts CodesProofs Run CodesSummary CodesTheorems Small CodeDefs VByteProofs SignedCodes.
 Open Scope N_scope.
 
 Theorem C17s_signed_nat_inverse : forall y, (- 2 ^ 63 <= y < 2 ^ 63)%Z -> signed_of_nat (nat_of_signed y) = y.
@@ -32,3 +32,11 @@ Theorem C17s_signed_domain :
   nat_of_signed (-1) = 1 /\ nat_of_signed 0 = 0 /\ nat_of_signed 1 = 2.
 Proof. exact SignedCodes.signed_domain. Qed.
 Print Assumptions C17s_signed_domain.
+
+Theorem C17s_signed_vbyte_bytes_roundtrip : forall y rest, (- 2 ^ 63 <= y < 2 ^ 63)%Z ->
+  (exists bs, vbyte_be_encode (nat_of_signed y) = Some bs /\
+     exists x, vbyte_read_be (bs ++ rest) = Ok (x, rest) /\ signed_of_nat x = y) /\
+  (exists bs, vbyte_le_encode (nat_of_signed y) = Some bs /\
+     exists x, vbyte_read_le (bs ++ rest) = Ok (x, rest) /\ signed_of_nat x = y).
+Proof. exact SignedCodes.signed_vbyte_bytes_roundtrip. Qed.
+Print Assumptions C17s_signed_vbyte_bytes_roundtrip.
